@@ -3357,6 +3357,8 @@ class NetCDFWrite(IOWrite):
             ).get("standard_name", False)
         ]
 
+        g["vertical_datum_grid_mapping"] = False
+
         g["grid_mapping_refs"] = [
             ref
             for ref in list(
@@ -4012,7 +4014,13 @@ class NetCDFWrite(IOWrite):
         # ------------------------------------------------------------
         # Create netCDF variables grid mappings
         # ------------------------------------------------------------
-        multiple_grid_mappings = len(g["grid_mapping_refs"]) > 1
+        # (a grid mapping created only to hold a vertical datum must
+        # name its vertical coordinate, else it is read as a new
+        # horizontal coordinate reference)
+        multiple_grid_mappings = (
+            len(g["grid_mapping_refs"]) > 1
+            or g["vertical_datum_grid_mapping"]
+        )
 
         grid_mapping = [
             self._write_grid_mapping(f, ref, multiple_grid_mappings)
@@ -4251,6 +4259,7 @@ class NetCDFWrite(IOWrite):
                 self.implementation.nc_set_variable(new_grid_mapping, ncvar)
 
             g["grid_mapping_refs"].append(new_grid_mapping)
+            g["vertical_datum_grid_mapping"] = True
 
     def _unlimited(self, field, axis):
         """Whether an axis is unlimited.
